@@ -27,6 +27,10 @@ RULE = (
     "a second migration and a migration of an up-to-date project must be no-ops. Non-trivial and distinct = distinct "
     "configurations with at least one job."
 )
+RULE += (
+    " " + "Added later: nested custom workspace named 'workspace'; a same-size same-mtime rewrite of a configuration this process opened before; pathlib.Path roots."
+    " In every third case DEBUG logging is effective for the package."
+)
 ASSUMPTIONS = [
     "Legacy configurations are written with the vendored ConfigObj writer, as signac 1.x did.",
     "A legacy 'signac.rc' that itself declares the current version is not a legal configuration and is not generated.",
